@@ -28,6 +28,13 @@ Clauses(ev) ==
   IF ev.ev = "reset"
   THEN [ResetStateIsInitial  |-> M!IsInitialState(ls),
         ResetObsIsOwn        |-> ev.obs = M!WObs(ls)]
+  ELSE IF ev.ev = "gxstep"      \* a Gymnax-style step: termination and truncation arrive merged as `done' (ev.term)
+  THEN LET o == M!StepOut(st, ev.a) done == o.term \/ o.trunc IN
+       [RewardOfTransitionTaken |-> ev.rew = o.rew,
+        DoneIsTermOrTrunc       |-> ev.term = done,
+        FreshStateWhenDone      |-> done => M!IsInitialState(ls),
+        SuccessorOtherwise      |-> (~done) => ls = o.nx,
+        ObsIsOfReturnedState    |-> ev.obs = M!WObs(ls)]
   ELSE LET o == M!StepOut(st, ev.a) done == o.term \/ o.trunc IN
        [RewardOfTransitionTaken |-> ev.rew = o.rew,
         TerminalOfSuccessor     |-> ev.term = o.term,
@@ -39,7 +46,8 @@ Failed(ev) == LET c == Clauses(ev) IN {n \in DOMAIN c : ~c[n]}
 
 TStep == /\ l >= 1 /\ l <= Len(Tr) /\ Failed(Tr[l]) = {}
          /\ IF Tr[l].ev = "reset" THEN E!Reset ELSE E!Step(Tr[l].a)
-         /\ st' = LoggedState(Tr[l]) /\ out' = LoggedOut(Tr[l])
+         /\ st' = LoggedState(Tr[l])
+         /\ IF Tr[l].ev = "gxstep" THEN out'.obs = Tr[l].obs /\ out'.rew = Tr[l].rew ELSE out' = LoggedOut(Tr[l])
          /\ l' = l + 1 /\ UNCHANGED <<tid, rej>>
 TReject == /\ l >= 1 /\ l <= Len(Tr) /\ Failed(Tr[l]) # {}
            /\ rej' = <<l, Failed(Tr[l])>> /\ l' = 0
